@@ -92,6 +92,11 @@ namespace sim {
 		// set while a packet is being handed to the next hop. The next hop may
 		// send a packet back into this queue from inside its incoming_packet()
 		bool m_forwarding;
+
+		// the timer and post completions hold a weak reference to this token and
+		// do nothing once the queue has been destroyed (a queue is kept alive
+		// only by the routes and packets that refer to it)
+		std::shared_ptr<int> m_alive;
 	};
 
 }
